@@ -314,4 +314,16 @@ theorem log2_accurate (fm : Bool) (x : Nat) (h1 : 8388608 ≤ x) (h2 : x < 21390
     |F32.toReal (MathM.log2 fm x) - Real.logb 2 (F32.toReal x)| ≤ 114 / 10 ^ 7 + (1 / 16777216) * |Real.logb 2 (F32.toReal x)| :=
   Log2.log2_close fm x h1 h2
 
+
+/-- **expf underflow clause** (fastmath build, both FMA modes): for every finite `x` with `-1e38 ≤ x ≤ -88` the result is a zero
+(finite, value 0). The chain: `LOG2_E * x ≤ -126.95`, `floor` gives an integer at most -127 (`FloorL.floor_val`, every finite
+argument), `exp2` of it is exactly zero because the clamped value truncates to -127 and the exponent-field construction yields
+the bit pattern 0 (`Expf.exp2_zero`), and a product with a zero factor is a zero. -/
+theorem expf_underflow (B : Build) (hB : B.fastmath = true) (x : Nat) (hx : F32.Finite x)
+    (h1 : -(10:ℝ) ^ 38 ≤ F32.toReal x) (h2 : F32.toReal x ≤ -88) :
+    ∃ r, MathM.expf B x = .ok r ∧ F32.Finite r ∧ F32.toReal r = 0 := by
+  have : MathM.expf B x = MathM.expfFast B.fma x := by unfold MathM.expf; rw [if_pos hB]
+  rw [this]
+  exact Expf.expf_lo B.fma x hx h1 h2
+
 end C18
